@@ -124,6 +124,16 @@ static void *h_no_growth (void *p) {
   H_ASSUME (0);
   return p;
 }
+/* The only allocations in these harnesses are interned strings ("blk1", scanned strings): fixed 16-byte blocks.
+   (CBMC does not fold `switch (op.mode)` on a MIR_op_t passed by value - the mode is an enum bit-field - so every
+   MIR_output_op encodes all operand branches, including type_str's blk branch with its get_ctx_str allocation
+   of a then symbolic size: no verdict with malloc (size).) */
+static void *h_small_malloc (size_t n) {
+  H_ASSUME (n <= 16);
+  return malloc (16);
+}
+#undef MIR_malloc
+#define MIR_malloc(alloc, size) ((void) (alloc), h_small_malloc (size))
 #undef MIR_realloc
 #define MIR_realloc(alloc, ptr, old_size, new_size) ((void) (alloc), (void) (old_size), (void) (new_size), h_no_growth (ptr))
 #else
